@@ -80,7 +80,7 @@ fn builtin_len(args: Vec<Rc<Object>>) -> Result<Rc<Object>, String> {
 
 fn builtin_puts(args: Vec<Rc<Object>>) -> Result<Rc<Object>, String> {
     if args.is_empty() {
-        println!();
+        let _ = writeln!(io::stdout());
         return Ok(Rc::new(Object::Null));
     }
 
@@ -88,14 +88,14 @@ fn builtin_puts(args: Vec<Rc<Object>>) -> Result<Rc<Object>, String> {
         match obj.as_ref() {
             Object::Str(t) => {
                 // Avoid quotes around string
-                print!("{}", t);
+                let _ = write!(io::stdout(), "{}", t);
             }
             o => {
-                print!("{}", o);
+                let _ = write!(io::stdout(), "{}", o);
             }
         }
     }
-    println!();
+    let _ = writeln!(io::stdout());
     // puts returns Null
     Ok(Rc::new(Object::Null))
 }
@@ -456,7 +456,7 @@ fn builtin_print(args: Vec<Rc<Object>>) -> Result<Rc<Object>, String> {
     let collector = format_buf(args)?;
     // Print the collected formatted output
     for s in &collector.0 {
-        print!("{}", s);
+        let _ = write!(io::stdout(), "{}", s);
         len += s.len() as i64;
     }
     Ok(Rc::new(Object::Integer(len)))
@@ -470,11 +470,11 @@ fn builtin_println(args: Vec<Rc<Object>>) -> Result<Rc<Object>, String> {
     let collector = format_buf(args)?;
     // Print the collected formatted output
     for s in &collector.0 {
-        print!("{}", s);
+        let _ = write!(io::stdout(), "{}", s);
         len += s.len() as i64;
     }
     // Newline at the end
-    println!();
+    let _ = writeln!(io::stdout());
     len += 1;
     Ok(Rc::new(Object::Integer(len)))
 }
@@ -487,7 +487,7 @@ fn builtin_eprint(args: Vec<Rc<Object>>) -> Result<Rc<Object>, String> {
     let collector = format_buf(args)?;
     // Print the collected formatted output
     for s in &collector.0 {
-        eprint!("{}", s);
+        let _ = write!(io::stderr(), "{}", s);
         len += s.len() as i64;
     }
     Ok(Rc::new(Object::Integer(len)))
@@ -501,11 +501,11 @@ fn builtin_eprintln(args: Vec<Rc<Object>>) -> Result<Rc<Object>, String> {
     let collector = format_buf(args)?;
     // Print the collected formatted output
     for s in &collector.0 {
-        eprint!("{}", s);
+        let _ = write!(io::stderr(), "{}", s);
         len += s.len() as i64;
     }
     // Newline at the end
-    eprintln!();
+    let _ = writeln!(io::stderr());
     len += 1;
     Ok(Rc::new(Object::Integer(len)))
 }
@@ -1039,7 +1039,7 @@ fn builtin_input(args: Vec<Rc<Object>>) -> Result<Rc<Object>, String> {
     // display the prompt only if args has atleast one element
     if args.len() == 1 {
         if let Object::Str(s) = args[0].as_ref() {
-            print!("{}", s);
+            let _ = write!(io::stdout(), "{}", s);
             if let Err(e) = io::stdout().flush() {
                 return Ok(Rc::new(Object::Err(ErrorObj::IO(e))));
             }
